@@ -56,12 +56,8 @@ OpsViol(r) ==
            THEN {"ratio_formula"} ELSE {})
      \cup (IF NoEmpty(ops) /\ Alternate(ops) /\ (valid => Latest(r.old, r.new, ops))
            THEN {} ELSE {"normal"})
-     \cup (IF valid /\ ~ExactPositions(r.old, r.new, r.os, r.oe, r.ns, r.ne, ops)
-           THEN {"exact"} ELSE {})
-     \cup (IF r.rep_panic THEN {"exact_rep"}
-           ELSE IF ValidOps(r.old, r.new, r.os, r.oe, r.ns, r.ne, r.ops_rep)
-                   /\ ~ExactPositions(r.old, r.new, r.os, r.oe, r.ns, r.ne, r.ops_rep)
-                THEN {"exact_rep"} ELSE {})
+     \cup (IF ~PositionsExact(r.os, r.ns, ops) THEN {"exact"} ELSE {})
+     \cup (IF r.rep_panic \/ ~PositionsExact(r.os, r.ns, r.ops_rep) THEN {"exact_rep"} ELSE {})
      \cup (IF valid /\ anchOk /\ nodl /\ r.alg = "patience"
               /\ CoveredUnique(r.old, r.new, r.os, r.oe, r.ns, r.ne, ops) < AnchorOptimum(oldR, newR)
            THEN {"anchors"} ELSE {})
